@@ -78,12 +78,12 @@ class C13(Prop):
             r = rng.random()
             if r < 0.5:
                 m = rng.randint(2, 6)
-                alts = gen.alt_ids(rng, m)
+                alts = gen.alt_ids(rng, m, zero_ok=True)
                 orders = [list(o) for o in gen.strict_orders(rng, alts, rng.randint(1, 5))]
                 yield {"kind": "profile", "alts": alts, "orders": orders, "planted": None}
             else:
                 m = rng.choice([3, 4, 5, 6, 8, 12, 25])
-                alts = gen.alt_ids(rng, m)
+                alts = gen.alt_ids(rng, m, zero_ok=True)
                 votes = tree_votes(rng, alts, rng.randint(1, 8))
                 orders = [list(o) for o in dict.fromkeys(map(tuple, votes))]
                 planted = True
